@@ -16,6 +16,7 @@ mod rng;
 mod sexp;
 mod xml;
 mod streams;
+mod typegen;
 
 use sexp::Sexp;
 use std::io::{BufRead, Write};
